@@ -122,6 +122,9 @@ def build(kind, n, edges, pts=None, how=0, weights=None):
     if weights is not None and how == 2:
         how = 0
     earr = np.array(edges, dtype=int).reshape(-1, 2)
+    if how == 2 and n <= 250 and (n + len(edges)) % 3:
+        # edge lists come in whatever integer type the caller's data has
+        earr = earr.astype([np.uint8, np.int16, np.int32, np.uint16][(n + len(edges)) % 4])
     if how == 2:
         if kind == "U":
             return ms.UndirectedGraph.init_from_edges(earr if len(edges) else None, n)
@@ -135,13 +138,27 @@ def build(kind, n, edges, pts=None, how=0, weights=None):
         # a sparse matrix that stores a few zeros explicitly (an edge deleted by A[i, j] = 0): those are not edges
         ghosts = [(i, (i * 7 + 3) % n) for i in range(0, n, 3) if i != (i * 7 + 3) % n]
     a = gen.adjacency(n, edges, not directed, weights=weights, dense=(how == 1), stored_zeros=ghosts)
+    ckw = {}
+    if how in (3, 4) and (n + len(edges)) % 2:
+        ckw = {"copy": False}         # the documented "adopt my matrix" option
+    if how == 4:
+        # a CSR matrix whose column indices are not sorted within the rows (scipy does not promise sorted indices; the matrices
+        # its graph routines return, e.g. spanning trees, usually are not)
+        import scipy.sparse as sp
+        a = sp.csr_matrix(a)
+        ind, dat = a.indices.copy(), a.data.copy()
+        for r in range(n):
+            lo, hi = a.indptr[r], a.indptr[r + 1]
+            ind[lo:hi] = ind[lo:hi][::-1]
+            dat[lo:hi] = dat[lo:hi][::-1]
+        a = sp.csr_matrix((dat, ind, a.indptr.copy()), shape=a.shape)
     if kind == "U":
-        return ms.UndirectedGraph(a)
+        return ms.UndirectedGraph(a, **ckw)
     if kind == "D":
-        return ms.DirectedGraph(a)
+        return ms.DirectedGraph(a, **ckw)
     if kind == "PU":
-        return ms.PointUndirectedGraph(pts, a)
-    return ms.PointDirectedGraph(pts, a)
+        return ms.PointUndirectedGraph(pts, a, **ckw)
+    return ms.PointDirectedGraph(pts, a, **ckw)
 
 
 def canon_edges(edges, directed):
@@ -416,7 +433,7 @@ def w_random(ctx, rng, i):
         # keep antiparallel weights independent: that is a legitimate weighted digraph
         pass
     pts = gen.points(rng, n, 2)
-    g = build(kind, n, edges, pts, int(rng.integers(0, 4)), weights=weights if weighted else None)
+    g = build(kind, n, edges, pts, int(rng.integers(0, 5)), weights=weights if weighted else None)
     cls = type(g).__name__
     ctx.see("classes", cls)
     E = judge_structure(ctx, g, n, edges, directed, cls)
@@ -461,6 +478,8 @@ def w_random(ctx, rng, i):
                 ctx.fail("mst_weight_differs_from_kruskal", cls=cls, got=total, expected=kw)
             else:
                 judge_tree(ctx, t, n, canon_edges(te, True), root, type(t).__name__)
+                # the tree handed back is a graph like any other: its own queries agree with its own edges
+                judge_structure(ctx, t, n, te, True, type(t).__name__ + ":spanning_tree")
     # every question asked above was a read-only query: the graph still reports the edges it was built from
     after_queries(ctx, g, n, edges, directed, cls, W if weighted else None)
     ctx.count_case(("random", kind, n, len(E), weighted, i), nontrivial=len(E) >= 1,
